@@ -29,6 +29,7 @@ import vlib
 
 MAX_BLOB = 2 * 2 ** 20
 MAX_RESP = 16 * 1024
+WORK_BOUND = MAX_RESP * (MAX_RESP + 1) // 2 + (1 << 20)   # every '}' below the cap, once per segment
 RESP_KEYS = {'lbrycrd_address', 'available_blobs', 'blob_data_payment_rate', 'incoming_blob'}
 HEXMATCH = re.compile("^[a-f,0-9]+$")
 ADDRESS = 'bQEaw42GXsgCAGio1nxFncJSyRmnztSCjP'
@@ -65,10 +66,15 @@ class VLoop(asyncio.SelectorEventLoop):
     def time(self):
         return self.vt
 
-    def drain(self, n=25):
+    def drain(self, n=200):
+        """run the loop until nothing is ready any more (timers do not fire: the clock stands still)"""
         async def z():
+            idle = 0
             for _ in range(n):
                 await asyncio.sleep(0)
+                idle = idle + 1 if not self._ready else 0
+                if idle >= 2:
+                    break
         self.run_until_complete(z())
 
     def advance(self, dt):
@@ -429,8 +435,9 @@ class ClientSession:
         writer = getattr(blob, 'spy_writer', None)
         sent_request = b''.join(tr.written)
         tr.written = []
-        jb0, rx = JSON_WORK.bytes, 0
+        rx, worst = 0, 0
         for ev in events:
+            jb0 = JSON_WORK.bytes
             if ev[0] in ('data', 'late'):
                 rx += len(ev[1]) // 2
             k = ev[0]
@@ -448,6 +455,7 @@ class ClientSession:
                 loop.advance(max(int(ev[1]), 0))
             elif k == 'lost':
                 tr.peer_close()
+            worst = max(worst, JSON_WORK.bytes - jb0)
         loop.drain()
         if not task.done():
             phase = 'pending'
@@ -476,7 +484,7 @@ class ClientSession:
         }
         extra = {'verified_flag': verified, 'on_disk': on_disk, 'elapsed': loop.vt - t0, 'request': sent_request,
                  'task': task, 'transport_closed': tr.closing, 'raised': list(tr.raised),
-                 'json_bytes': JSON_WORK.bytes - jb0, 'rx': rx}
+                 'json_bytes': worst, 'rx': rx}
         if phase == 'pending':
             task.cancel()
             loop.drain()
@@ -529,9 +537,9 @@ def monitor_client(req, obs, extra, T):
             return 'request on the wire does not name the blob'
     except ValueError:
         return 'request on the wire is not JSON'
-    if extra['json_bytes'] > 256 * (extra['rx'] + 4096):
-        return ('WORK: the client fed %d bytes to json.loads while receiving %d bytes (re-parsing at every "}"): a peer '
-                'can stall the event loop past every timeout' % (extra['json_bytes'], extra['rx']))
+    if extra['json_bytes'] > WORK_BOUND:
+        return ('WORK: one data_received call fed %d bytes to json.loads (re-parsing at every "}"; %d bytes received in all): '
+                'a peer can stall the event loop past every timeout' % (extra['json_bytes'], extra['rx']))
     if req.get('honest'):
         if obs['phase'] != ['ok', len(truth)] or not verified or not obs['open']:
             return 'honest transfer did not complete: %r verified=%r open=%r' % (obs['phase'], verified, obs['open'])
@@ -774,6 +782,7 @@ def gen_request(rng, T, mis=None, size=None, blob_kind=None, frag=None, known_mo
     elif mis == 'brace_flood':
         hdr = b'}' * rng.choice([300, 2000])
         body = b''
+        frag = rng.choice(['one', 'random', 'hdrcut'])
     elif mis == 'silence':
         hdr, body = b'', b''
     elif mis == 'not_available':
@@ -1704,7 +1713,6 @@ def main(run):
             if nm.endswith('.json'):
                 dispatch(run, model, json.load(open(os.path.join(corpus_dir, nm)))['case'])
                 run.count('corpus')
-    dispatch(run, model, f7_case())
     # --- client: every misbehaviour at every request position
     for rep in range(mult):
         for mis in MISBEHAVIOURS:
@@ -1744,10 +1752,9 @@ def main(run):
         for i in range(27):
             dispatch(run, None, gen_tcp_case(rng, i))
     # --- oversized-JSON work bound (the defect repaired by `fix: blob client bounds the bytes it scans ...`)
-    dispatch(run, model, flood_case())
     dispatch(run, model, flood_case(400000 if thorough else 160000))
     run.exhaustive = False
-    run.partial = ['C10_honest_transfer_completes_partial']
+    run.partial = []
     run.supporting = {'oracle_calls': model.oracle_calls, 'model_calls': model.calls}
     run.extra_assumptions = [
         'Section hypotheses of C10_fragmentation_irrelevant about an honest header (ends in "}", parses as a response at '
